@@ -460,7 +460,7 @@ theorem inv2_step {P : Params} {s s' : State} (h1 : Inv1 P s) (h : Inv2 s) (hs :
         exact ⟨Nat.le_refl _, fun hok => by obtain ⟨o, ho⟩ := hok; cases ho⟩
       · unfold HistPhase; simp only [updF_same]
     · other_tx h j hj
-  | tailTs i k st hp =>
+  | tailTs i k st hp hk =>
     intro j
     by_cases hj : j = i
     · subst hj
@@ -471,6 +471,21 @@ theorem inv2_step {P : Params} {s s' : State} (h1 : Inv1 P s) (h : Inv2 s) (hs :
       · unfold HistPhase; simp only [updF_same]
     · other_tx h j hj
   | tailLts i k ts st hp =>
+    intro j
+    by_cases hj : j = i
+    · subst hj
+      have hj := h j
+      have hsh := hj.shape; unfold Shape at hsh; rw [hp] at hsh
+      have hps := h1.st_phase j; rw [hp] at hps; simp only [PhaseStatus] at hps
+      obtain ⟨r, hr, hex, hco⟩ := hsh
+      refine ⟨?_, hj.entry, ⟨hj.hist.le_inc, hj.hist.res, ?_⟩⟩
+      · unfold Shape; simp only [updF_same]
+        rcases hps.2 with hst | hst
+        · subst hst; exact ⟨r, hr, hex rfl⟩
+        · subst hst; exact ⟨r, hr, hco rfl⟩
+      · unfold HistPhase; simp only [updF_same]
+    · other_tx h j hj
+  | tailSkip i k st hp hk =>
     intro j
     by_cases hj : j = i
     · subst hj
